@@ -100,9 +100,10 @@ install(globals(), 'C12', view, oracle,
                    'once per batch. Tied to engine.py by the emit/batch sequence correspondence; row fidelity is '
                    'checked directly on the implementation.',
         level_note='Trusted: Lean kernel + standard axioms; scheduler model ~ Engine.run_for via trace '
-                   'correspondence. Serializers/units on emission (Store.emit_data) and branch-level _emit / '
-                   'store_schema are covered by the oracle of C12 only on integer variables; emission through '
-                   'changing hierarchy shapes is covered by C09/C10 checks of the hierarchy itself.',
+                   'correspondence. Units and custom serializers on emission (Store.emit_data) are covered by the '
+                   'oracle-only emitser family (quantities, serializer objects and names), not by a theorem; '
+                   'branch-level _emit is compared in C15, store_schema has no scenario of its own; emission '
+                   'through changing hierarchy shapes is covered by the C09/C10 checks of the hierarchy itself.',
         technique='Lean 4 invariant proof over the scheduler log + emit-sequence correspondence',
         extra_corpus=_extra(),
         required=['emit_times_strict', 'row_is_flagged_state', 'one_row_per_batch', 'initial_prefix', 'at_most_one_row_per_pass', 'row_contents',
